@@ -10,6 +10,7 @@ pub mod verif_spec {
     pub use crate::verif_spec_tbc::*;
     pub use crate::verif_spec_rc4::*;
     pub use crate::verif_spec_wrath::*;
+    pub use crate::verif_spec_key::*;
 
     pub open spec fn be16(x: u16) -> Seq<u8> { seq![(x / 256) as u8, (x % 256) as u8] }
     pub open spec fn le16(x: u16) -> Seq<u8> { seq![(x % 256) as u8, (x / 256) as u8] }
